@@ -104,7 +104,9 @@ class WorldGen:
         k["awk_mode"] = r.choice(("unregistered", "unregistered", "registered_before"))
         k["register_midrun"] = k["awk_mode"] == "unregistered" and r.random() < 0.3
         k["warnfilter"] = r.choice(("default", "default", "ignore", "error", "always"))
-        k["printopts"] = r.choice((None, None, {"precision": 3}, {"precision": 12, "suppress": True}))
+        k["printopts"] = r.choice((None, None, {"precision": 3}, {"precision": 12, "suppress": True},
+                                   {"threshold": 7, "edgeitems": 2}, {"threshold": 100000, "edgeitems": 5, "linewidth": 200},
+                                   {"floatmode": "fixed", "sign": "+", "precision": 5}, {"nanstr": "NaN!", "infstr": "Inf!", "linewidth": 40}))
         es = []
         for _ in range(k["nthreads"]):
             es.append(r.choice((None, {"all": "warn"}, {"all": "raise"}, {"all": "ignore"}, {"divide": "raise", "over": "call"},
@@ -698,7 +700,28 @@ class WorldGen:
         """Calls that raise at different depths."""
         r = self.rng
         w = r.choice(("badnames", "boolval", "missing", "dup", "mixlib", "wrongdim", "baddtype", "notvec", "zip_notdict",
-                      "sing_eta", "overflow"))
+                      "sing_eta", "overflow", "nonnumeric", "nonnumeric", "wrongdim_np"))
+        if w == "nonnumeric":
+            # a coordinate column of a non-numeric type must be rejected (TypeError), whoever else is running
+            bad = r.choice(("?", "c16", "U3", "m8[s]", "O"))
+            val = {"?": True, "c16": 1.0, "U3": "a", "m8[s]": 1, "O": 1.0}[bad]
+            names = r.choice((["x", "y"], ["rho", "phi", "z"], ["px", "py", "pz", "E"]))
+            dtl = [[n, "f8"] for n in names]
+            dtl[r.randrange(len(names))][1] = bad
+            row = [val if t_ == bad else 1.5 for _, t_ in dtl]
+            if r.random() < 0.5:
+                return {"f": "vector.array", "a": [{"$": "rows", "v": [row]}], "k": {"dtype": {"$": "dtlist", "v": dtl}}}
+            cls = f"vector.{'Momentum' if 'px' in names else 'Vector'}Numpy{len(names)}D"
+            return {"f": cls, "a": [{"$": "rows", "v": [row]}], "k": {"dtype": {"$": "dtlist", "v": dtl}}}
+        if w == "wrongdim_np":
+            a = self.vec_slots(be=("np",))
+            if len(a) < 2:
+                return None
+            ja = r.choice(a)
+            c = [j for j in a if self.desc[j].dim != self.desc[ja].dim]
+            if not c:
+                return None
+            return {"f": "." + r.choice(("add", "subtract", "dot", "equal", "isclose", "is_parallel")), "a": [P(ja), P(r.choice(c))]}
         if w == "badnames":
             return {"f": "vector.obj", "k": {"x": 1.0, "phi": 2.0}}
         if w == "boolval":
@@ -798,9 +821,16 @@ class WorldGen:
         if not privs or (len(privs) < 3 and r.random() < 0.3):
             slot = len(privs)
             src = r.choice(("obj", "np")) if k["backends"]["np"] else "obj"
+            if k["backends"].get("sym") and self.vec_slots(be=("sym",), exclude_sym=False) and r.random() < 0.5:
+                src = "sym"
             sys_ = self.pick_sys()
             mom = r.random() < 0.5
             d = C.dim_of(sys_)
+            if src == "sym":
+                names = C.spell(r, sys_, mom)
+                kw = {sp: {"$": "sym", "v": g + "p"} for sp, g in zip(names, C.names_of(sys_))}
+                privs.append(Desc(be="sym", dim=d, mom=mom, sys=sys_))
+                return {"f": f"vector.{'Momentum' if mom else 'Vector'}Sympy{d}D", "k": kw, "defm": slot}
             if src == "obj":
                 privs.append(Desc(be="obj", dim=d, mom=mom, sys=sys_))
                 return {"f": "vector.obj", "k": self.coord_kwargs(sys_, mom, kinds=("float",)), "defm": slot}
@@ -809,6 +839,24 @@ class WorldGen:
             return {"f": "vector.array", "a": [{nm: cols[nm] for nm in names}], "defm": slot}
         slot = r.randrange(len(privs))
         d = privs[slot]
+        if d.be == "sym":
+            # symbolic private target: out= forms and in-place operators with pooled symbolic operands
+            c = self.vec_slots(dim=d.dim, be=("sym",), exclude_sym=False)
+            if not c:
+                return None
+            w = r.choice(("out", "out", "iadd", "isub", "imul"))
+            if w == "out":
+                u = r.choice(("add", "subtract", "multiply", "negative", "true_divide"))
+                if u in ("add", "subtract"):
+                    a_ = [P(r.choice(c)), P(r.choice(c))]
+                elif u == "negative":
+                    a_ = [P(r.choice(c))]
+                else:
+                    a_ = [P(r.choice(c)), 2]
+                return {"f": "numpy." + u, "a": a_, "k": {"out": {"$": "tuple", "v": [M(slot)]}}, "w": ["out"]}
+            if w in ("iadd", "isub"):
+                return {"f": "operator." + w, "a": [M(slot), P(r.choice(c))], "w": [0], "bind": slot}
+            return {"f": "operator.imul", "a": [M(slot), 2], "w": [0], "bind": slot}
         if d.be == "obj":
             w = r.choice(("set", "set", "iadd", "isub", "imul", "idiv", "out"))
             if w == "set":
